@@ -194,9 +194,11 @@ def routerDelete (s : Store) (k : Key) : Store × Outcome :=
   | _ => ({ s with md := aerase s.md k }, .done .ok)
 
 /-- the records `put_durable` appends while it holds the log mutex (and the entity id it
-    allocates there when the value carries a vector, whatever the key class) -/
+    allocates there for an `emb:` key whose value carries a vector; a vector stored under a key
+    of any other class logs its `MetadataSet` record alone and allocates no id) -/
 def logPut (s : Store) (k : Key) (v : Val) : Store :=
   if !s.walOn then s else
+  if k.cls ≠ .emb then { s with wal := s.wal ++ [.metaSet k v] } else
   match v.vec with
   | .none => { s with wal := s.wal ++ [.metaSet k v] }
   | vec =>
@@ -398,15 +400,10 @@ def view (s : Store) (k : Key) : Res × Bool × Bool :=
 /-- `apply_wal_entry` -/
 def applyEntry (s : Store) : Entry → Store
   | .metaSet k v =>
-      match v.vec with
-      | .none =>
-          if k.cls = .emb then
-            let ic := idxGetOrCreate s.vocab k
-            { s with md := aset s.md k v, vocab := ic.2, slab := aerase s.slab ic.1 }
-          else { s with md := aset s.md k v }
-      | vec =>
-          let ic := idxGetOrCreate s.vocab k
-          { s with md := aset s.md k v, vocab := ic.2, slab := slabPut s.slab ic.1 vec }
+      if k.cls = .emb then
+        let ic := idxGetOrCreate s.vocab k
+        { s with md := aset s.md k v, vocab := ic.2, slab := slabPut s.slab ic.1 v.vec }
+      else { s with md := aset s.md k v }
   | .metaDel k => { s with md := aerase s.md k }
   -- ignored by replay (repo 6b9ec7ce): the id is the one the key had in the session that logged
   -- it; the `MetadataSet` record that always follows carries the vector
